@@ -883,7 +883,126 @@ func ruleLowerDom(p *Prog, r *Report) {
 			}
 		}
 	}
-	r.Floor("R-LOWER-DOM", 5)
+	// method-shaped prefix predicates: (c *constraint) f(probe) bool that compares a field of the probe with
+	// the same field of the constraint's own version (composer's caret forms)
+	for _, e := range p.Ecos {
+		for _, fn := range p.RepoReachable(e.Contains) {
+			if fn.Pkg == nil || fn.Pkg.Pkg != e.VerT.Obj().Pkg() || fn.Blocks == nil || fn.Signature.Recv() == nil {
+				continue
+			}
+			if fn.Signature.Results().Len() != 1 || !isBoolType(fn.Signature.Results().At(0).Type()) {
+				continue
+			}
+			var probe *ssa.Parameter
+			nver := 0
+			for _, prm := range fn.Params[1:] {
+				if pt, ok := prm.Type().Underlying().(*types.Pointer); ok && types.Identical(pt.Elem(), e.VerT) {
+					probe = prm
+					nver++
+				}
+			}
+			if nver != 1 {
+				continue
+			}
+			// the base: a *Version loaded from a field of the receiver
+			isBase := func(v ssa.Value) bool {
+				ld, ok := v.(*ssa.UnOp)
+				if !ok || ld.Op != token.MUL {
+					return false
+				}
+				fa, ok := ld.X.(*ssa.FieldAddr)
+				return ok && fa.X == ssa.Value(fn.Params[0])
+			}
+			fieldOf := func(v ssa.Value) (base ssa.Value, field int, ok bool) {
+				ld, isLd := v.(*ssa.UnOp)
+				if !isLd || ld.Op != token.MUL {
+					return nil, 0, false
+				}
+				fa, isFA := ld.X.(*ssa.FieldAddr)
+				if !isFA {
+					return nil, 0, false
+				}
+				return fa.X, fa.Field, true
+			}
+			comparesFields := false
+			for _, b := range fn.Blocks {
+				for _, ins := range b.Instrs {
+					bo, ok := ins.(*ssa.BinOp)
+					if !ok {
+						continue
+					}
+					xb, xf, ok1 := fieldOf(bo.X)
+					yb, yf, ok2 := fieldOf(bo.Y)
+					if ok1 && ok2 && xf == yf && (xb == ssa.Value(probe) && isBase(yb) || yb == ssa.Value(probe) && isBase(xb)) {
+						comparesFields = true
+					}
+				}
+			}
+			if !comparesFields {
+				continue
+			}
+			// the guard: Compare(probe, base) >= 0 (as a branch or as the first conjunct of the result)
+			guarded := func(b *ssa.BasicBlock) bool {
+				return domEdges(b, func(cond ssa.Value, tv bool) bool {
+					bo, ok := cond.(*ssa.BinOp)
+					if !ok {
+						return false
+					}
+					call, ok := bo.X.(*ssa.Call)
+					if !ok || call.Call.StaticCallee() != e.Compare || len(call.Call.Args) != 2 || call.Call.Args[0] != ssa.Value(probe) || !isBase(call.Call.Args[1]) {
+						return false
+					}
+					if z, ok := constInt(bo.Y); !ok || z != 0 {
+						return false
+					}
+					return bo.Op == token.GEQ && tv || bo.Op == token.LSS && !tv
+				})
+			}
+			var unguarded []string
+			for _, b := range fn.Blocks {
+				ret, ok := b.Instrs[len(b.Instrs)-1].(*ssa.Return)
+				if !ok {
+					continue
+				}
+				var bad func(v ssa.Value, at *ssa.BasicBlock, depth int) bool
+				bad = func(v ssa.Value, at *ssa.BasicBlock, depth int) bool {
+					if cv, ok := v.(*ssa.Const); ok && cv.Value != nil && cv.Value.Kind() == constant.Bool && !constant.BoolVal(cv.Value) {
+						return false
+					}
+					if guarded(at) {
+						return false
+					}
+					if ph, ok := v.(*ssa.Phi); ok && depth < 3 {
+						for i, ed := range ph.Edges {
+							if bad(ed, ph.Block().Preds[i], depth+1) {
+								return true
+							}
+						}
+						return false
+					}
+					// the comparison itself as the result: Compare(probe, base) >= 0
+					if bo, ok := v.(*ssa.BinOp); ok && bo.Op == token.GEQ {
+						if call, ok := bo.X.(*ssa.Call); ok && call.Call.StaticCallee() == e.Compare {
+							return false
+						}
+					}
+					return true
+				}
+				if bad(ret.Results[0], b, 0) {
+					unguarded = append(unguarded, p.Pos(ret.Pos()))
+				}
+			}
+			n++
+			key := fmt.Sprintf("%s: %s contains nothing older than the base", e.Name, fn.Name())
+			if len(unguarded) > 0 {
+				sort.Strings(unguarded)
+				r.Bad("R-LOWER-DOM", fmt.Sprintf("%s :: %d acceptance(s) without the order test", key, len(unguarded)), unguarded[0], "a result other than false is returned on a path that has not passed Compare(probe, base) >= 0: versions older than the base (its own pre-releases, dev branches) can be contained")
+			} else {
+				r.Ok("R-LOWER-DOM", key, p.FnPos(fn), "every result other than false is dominated by, or conjoined with, Compare(probe, base) >= 0")
+			}
+		}
+	}
+	r.Floor("R-LOWER-DOM", 8)
 	_ = n
 }
 
